@@ -28,6 +28,8 @@ Sources ==
     [n |-> "tcr", ty |-> <<"ref", <<"const", <<"int">> >> >>, const |-> TRUE, where |-> "tparam"],
     [n |-> "ks",  ty |-> <<"const", <<"range", <<"int">> >> >>, const |-> TRUE, where |-> "select"],   \* select binder
     [n |-> "ki",  ty |-> <<"const", <<"range", <<"int">> >> >>, const |-> TRUE, where |-> "iter"],     \* for (ki : int[0,1])
+    \* a non-const struct with an array-of-const member and a mutable member (const fields as such are not allowed)
+    [n |-> "mix", ty |-> <<"label", <<"rec", <<"array", <<"const", <<"int">> >> >>, INT>> >>, const |-> FALSE, where |-> "global"],
     [n |-> "m",   ty |-> INT,                            const |-> FALSE, where |-> "global"],
     [n |-> "ma",  ty |-> <<"array", INT>>,               const |-> FALSE, where |-> "global"],
     [n |-> "ms",  ty |-> REC,                            const |-> FALSE, where |-> "global"],
@@ -86,7 +88,17 @@ Roots(L) == CASE L[1] = "id" -> {L[2]}
               [] L[1] \in {"idx", "fld"} -> Roots(L[2])
               [] L[1] = "cond" -> Roots(L[2]) \cup Roots(L[3])
               [] L[1] = "comma" -> Roots(L[3])
-ConstTarget(L) == \E n \in Roots(L) : SrcOf(n).const
+(* constness accumulated along the access path, read off the declared type term (prefix chain only) *)
+RECURSIVE ConstTy(_)
+ConstTy(t) == t[1] = "const" \/ (t[1] \in {"ref", "label", "range"} /\ ConstTy(t[2]))
+RECURSIVE PathConst(_)
+PathConst(L) == CASE L[1] = "id" -> ConstTy(SrcOf(L[2]).ty)
+                  [] L[1] \in {"idx", "fld"} -> PathConst(L[2]) \/ ConstTy(TyOf(L))
+                  [] L[1] = "cond" -> PathConst(L[2]) \/ PathConst(L[3])
+                  [] L[1] = "comma" -> PathConst(L[3])
+ConstTarget(L) == PathConst(L)
+RECURSIVE AnyConst(_)
+AnyConst(t) == t[1] = "const" \/ (t[1] = "rec" /\ (AnyConst(t[2]) \/ AnyConst(t[3]))) \/ (t[1] \notin {"int", "const", "rec"} /\ AnyConst(t[2]))
 
 (* shapes: int-typed lvalues reachable from a source by indexing / field selection *)
 RECURSIVE PathsOf(_, _)
@@ -106,13 +118,15 @@ Mixed == {<<"cond", a, b>> : a \in Basic, b \in {<<"id", "m">>, <<"id", "l">>, <
          \cup {<<"comma", b, a>> : a \in Basic, b \in {<<"id", "m">>}}
 ScopeOK(L) == \A a \in Roots(L), b \in Roots(L) : SameScope(a, b)
 
-Cases == {[lv |-> L, wf |-> wf, const |-> ConstTarget(L), modifiable |-> ImplModifiable(L), roots |-> Roots(L)] :
+Cases == {[lv |-> L, wf |-> wf, const |-> ConstTarget(L), modifiable |-> ImplModifiable(L), roots |-> Roots(L),
+           allmut |-> \A n \in Roots(L) : ~AnyConst(SrcOf(n).ty)] :
             L \in {x \in Basic \cup Mixed : ScopeOK(x)}, wf \in WriteForms}
-         \cup {[lv |-> L, wf |-> "tmplref", const |-> ConstTarget(L), modifiable |-> ImplModifiable(L), roots |-> Roots(L)] :
+         \cup {[lv |-> L, wf |-> "tmplref", const |-> ConstTarget(L), modifiable |-> ImplModifiable(L), roots |-> Roots(L),
+                allmut |-> \A n \in Roots(L) : ~AnyConst(SrcOf(n).ty)] :
             L \in {x \in Basic : SrcOf(CHOOSE n \in Roots(x) : TRUE).where = "global"}}
 
 Sound == \A c \in Cases : c.const => ~c.modifiable
-TwinOK == \A c \in Cases : (\A n \in c.roots : ~SrcOf(n).const) => c.modifiable
+TwinOK == \A c \in Cases : (\A n \in c.roots : ~AnyConst(SrcOf(n).ty)) => c.modifiable
 Export(file) == ndJsonSerialize(file, SetToSeq(Cases))
 
 VARIABLE dummy
